@@ -31,7 +31,7 @@ func (c03) Components() map[string][]string {
 	}
 }
 func (c03) ProbeNames() []string {
-	return []string{"wl-fat", "wl-table", "wl-partio", "wl-ext4", "fill-reached-refusal"}
+	return []string{"wl-fat", "wl-table", "wl-partio", "wl-ext4", "wl-iso", "wl-squashfs", "fill-reached-refusal"}
 }
 func (c03) Budget(tier string) (int, int, int) {
 	if tier == "thorough" {
@@ -40,7 +40,7 @@ func (c03) Budget(tier string) (int, int, int) {
 	return 50, 1 << 30, 120
 }
 
-var c03Workloads = []string{"fat", "fat", "fat", "table", "partio", "ext4"}
+var c03Workloads = []string{"fat", "fat", "fat", "table", "partio", "ext4", "iso", "squashfs"}
 
 func (c03) Gen(r *core.Rng, tier string, idx int) *core.Trace {
 	wl := c03Workloads[idx%len(c03Workloads)]
@@ -57,6 +57,14 @@ func (c03) Gen(r *core.Rng, tier string, idx int) *core.Trace {
 	case "ext4":
 		t = genExt4History(r, tier, idx, false)
 		t.Cfg["size"] = t.Cfg["size"]/512*512 + 512*r.Range(0, 7) // not a multiple of the block size
+	case "iso":
+		t = c06{}.Gen(r, tier, idx)
+		t.Cfg["start"] = core.PickOf[int64](r, 0, 2048, 1<<20, 5<<30)
+	case "squashfs":
+		t = c07{}.Gen(r, tier, idx)
+		t.Cfg["start"] = core.PickOf[int64](r, 0, 4096, 1<<20, 5<<30)
+		t.Cfg["bs"] = core.PickOf[int64](r, 4096, 8192, 131072)
+		t.Cfg["comp"] = core.PickOf[int64](r, 0, 1, 3, 4)
 	case "partio":
 		t = c13{}.Gen(r, tier, idx)
 	}
@@ -73,6 +81,10 @@ func (c03) Exec(t *core.Trace) *core.Result {
 		res = execPartitionIO(t, "C03")
 	case "ext4":
 		res, _ = execExt4History(t, "C03")
+	case "iso":
+		res = execIsoBuild(t, "C03")
+	case "squashfs":
+		res = execSquashBuild(t, "C03")
 	default:
 		res, _ = execFatHistory(t, "C03", false)
 	}
